@@ -636,7 +636,8 @@ pub fn cases(tier: Tier) -> Vec<Case> {
 }
 
 pub fn run(tier: Tier) -> ! {
-    let rep = Reporter::new("C19", "taskmc", tier, "exploration");
+    let rep = std::sync::Arc::new(Reporter::new("C19", "taskmc", tier, "exploration"));
+    let wd = mcx::watchdog::ExecWatchdog::start(rep.clone(), "discovery/poll-never-returns", Duration::from_secs(30));
     let samples = Samples::new(6);
     let all = cases(tier);
     let n = all.len();
@@ -651,8 +652,10 @@ pub fn run(tier: Tier) -> ! {
     for (i, case) in all.iter().enumerate() {
         let deadline = start + budget.mul_f64((i + 1) as f64 / n as f64).max(Duration::from_millis(100));
         let cfg = ExploreCfg { bound: d, deadline: Some(deadline), tolerate_divergence: true, ..Default::default() };
+        let label = std::sync::Arc::new(json!({"scenario": "discovery", "case": format!("{case:?}")}));
         let st = explore(&cfg, |ch: &mut Chooser| {
             executions.fetch_add(1, Ordering::Relaxed);
+            let _g = wd.enter(&label, ch.prefix());
             match mcx::catch(|| run_case(case, ch)) {
                 Ok(None) => RunOutcome::Continue,
                 Ok(Some((clause, detail))) => {
@@ -698,6 +701,7 @@ pub fn run(tier: Tier) -> ! {
     cov.insert("min_deviation_bound_completed".into(), json!(completed_min));
     cov.insert("cases_capped_by_time".into(), json!(capped));
     cov.insert("samples".into(), json!(samples.take()));
+    wd.stop();
     rep.finish(
         cov,
         vec![
